@@ -19,3 +19,7 @@ def run(run):
     gsm.simulate(run, 'ALL', 14, 4000 if quick else 60000, keep=KEEP, timeout=300 if quick else 1800)
     gsm.simulate(run, 'ALL', 12, 2000 if quick else 30000, keep=KEEP, lang='LDef', timeout=300 if quick else 1800)
     gsm.driver_traces(run, 150 if quick else 2500)
+    if not quick:
+        from checks import c05
+        run.want_graph_traces = True
+        c05.repo_suite_traces(run)
